@@ -914,6 +914,31 @@ impl<'i> NsReader<&'i [u8]> {
     }
 }
 
+/// Verification hooks (off in every normal build)
+#[cfg(any(kani, quick_xml_verif))]
+impl<R> NsReader<R> {
+    /// Assembles a namespace reader from its parts
+    #[doc(hidden)]
+    pub fn verif_from_parts(
+        reader: Reader<R>,
+        resolver: crate::name::VerifResolver,
+        pending_pop: bool,
+    ) -> Self {
+        Self {
+            reader,
+            ns_resolver: resolver.0,
+            pending_pop,
+        }
+    }
+
+    /// `(scope nesting level, pending pop, number of bindings)`
+    #[doc(hidden)]
+    pub fn verif_ns_state(&self) -> (i32, bool, usize) {
+        let (level, bindings, _) = self.ns_resolver.verif_parts();
+        (level, self.pending_pop, bindings)
+    }
+}
+
 impl<R> Deref for NsReader<R> {
     type Target = Reader<R>;
 
